@@ -24,6 +24,11 @@ struct Case {
     /// and 2; round-one packages cross the wire); no subset enumeration
     #[serde(default)]
     partial: bool,
+    /// the first participant's polynomial has a ROOT at the second participant's identifier (and, for t >= 3,
+    /// a zero second coefficient would not be encodable, so only t = 2 shapes): the round-two share it sends
+    /// there is legitimately the zero scalar
+    #[serde(default)]
+    zero_share: bool,
 }
 
 impl Prop for C07 {
@@ -58,7 +63,7 @@ impl Prop for C07 {
                         continue;
                     }
                     for k in 0..tier.pick(1, 3) {
-                        out.push(serde_json::to_value(Case { suite: suite.to_string(), n, t, idkind, seed: format!("s{seed}.{k}"), partial: false }).unwrap());
+                        out.push(serde_json::to_value(Case { suite: suite.to_string(), n, t, idkind, seed: format!("s{seed}.{k}"), partial: false, zero_share: false }).unwrap());
                     }
                 }
             }
@@ -66,12 +71,17 @@ impl Prop for C07 {
         // larger groups: t = n = 20 and (40, 2) (ed448: 12 / 20)
         for suite in REAL_SUITES {
             let (a, b) = if suite == "ed448" { (12u16, 20u16) } else { (20u16, 40u16) };
-            out.push(serde_json::to_value(Case { suite: suite.to_string(), n: a, t: a, idkind: IdKind::Mixed, seed: format!("s{seed}.big"), partial: false }).unwrap());
-            out.push(serde_json::to_value(Case { suite: suite.to_string(), n: b, t: 2, idkind: IdKind::U16x, seed: format!("s{seed}.big"), partial: false }).unwrap());
+            out.push(serde_json::to_value(Case { suite: suite.to_string(), n: a, t: a, idkind: IdKind::Mixed, seed: format!("s{seed}.big"), partial: false, zero_share: false }).unwrap());
+            out.push(serde_json::to_value(Case { suite: suite.to_string(), n: b, t: 2, idkind: IdKind::U16x, seed: format!("s{seed}.big"), partial: false, zero_share: false }).unwrap());
+        }
+        for suite in REAL_SUITES {
+            for (n, idkind) in [(2u16, IdKind::Seq), (3, IdKind::Seq), (3, IdKind::U16x), (4, IdKind::Derived)] {
+                out.push(serde_json::to_value(Case { suite: suite.to_string(), n, t: 2, idkind, seed: format!("s{seed}.zero"), partial: false, zero_share: true }).unwrap());
+            }
         }
         // thresholds above 255 (ed25519 in the quick tier)
         for suite in if tier == Tier::Thorough { vec!["ed25519", "secp256k1-tr", "p256"] } else { vec!["ed25519"] } {
-            out.push(serde_json::to_value(Case { suite: suite.to_string(), n: 257, t: 256, idkind: IdKind::Seq, seed: format!("s{seed}.t256"), partial: true }).unwrap());
+            out.push(serde_json::to_value(Case { suite: suite.to_string(), n: 257, t: 256, idkind: IdKind::Seq, seed: format!("s{seed}.t256"), partial: true, zero_share: false }).unwrap());
         }
         out
     }
@@ -141,12 +151,52 @@ fn dkg_run_parallel_wire<C: Suite>(n: u16, t: u16, idlist: &[Id<C>], seed: &str)
     Ok(DkgRun { ids, sp1, p1: p1w, sp2, p2 })
 }
 
+/// t = 2: the numerically first participant uses f(x) = a0 + a1 x with a1 = -a0 / x2, x2 the second participant's
+/// identifier, so f(x2) = 0; everything else is an ordinary honest run through the crate wrappers.
+fn dkg_run_zero_share<C: Suite>(n: u16, idlist: &[Id<C>], seed: &str) -> Result<DkgRun<C>, String> {
+    use frost_core::Field;
+    let (mut sp1, mut p1) = dkg_round1::<C>(n, 2, idlist, seed)?;
+    let mut ids = idlist.to_vec();
+    ids.sort();
+    let (first, second) = (ids[0], ids[1]);
+    let a0 = sc_seeded_nz::<C>(&format!("zero-share:{seed}"));
+    let x2 = id_scalar::<C>(&second);
+    let inv = <F<C> as Field>::invert(&x2).map_err(|_| "invert".to_string())?;
+    let a1 = neg::<C>(a0 * inv);
+    let coeffs = vec![a0, a1];
+    let commitment = fc::keys::VerifiableSecretSharingCommitment::<C>::new(coeffs.iter().map(|c| fc::keys::CoefficientCommitment::new(gen_mul::<C>(*c))).collect());
+    let mut rng = crate::rng::ScriptedRng::ctr(format!("zero-share-pok:{seed}"));
+    let pok = fc::keys::dkg::compute_proof_of_knowledge(first, &coeffs, &commitment, &mut rng).map_err(e2s("pok"))?;
+    sp1.insert(first, fc::keys::dkg::round1::SecretPackage::<C>::new(first, coeffs, commitment.clone(), 2, n));
+    p1.insert(first, fc::keys::dkg::round1::Package::<C>::new(commitment, pok));
+    let mut sp2 = BTreeMap::new();
+    let mut p2 = BTreeMap::new();
+    for id in idlist {
+        let r1 = others::<C, _>(&p1, id);
+        let (s, p) = C::w_part2(sp1[id].clone(), &r1).map_err(e2s("part2"))?;
+        sp2.insert(*id, s);
+        p2.insert(*id, p);
+    }
+    // the share is really zero (machinery)
+    let z: &BTreeMap<Id<C>, fc::keys::dkg::round2::Package<C>> = &p2[&first];
+    if z[&second].signing_share().to_scalar() != zero::<C>() {
+        return Err("MACHINERY: the crafted share is not zero".into());
+    }
+    Ok(DkgRun { ids, sp1, p1, sp2, p2 })
+}
+
 fn run_case<C: Suite>(c: &Case) -> Outcome {
     let mut o = Outcome::new();
     let tag = format!("C07/{}", C::name());
     let ctx = format!("n={} t={} ids={:?} seed={}", c.n, c.t, c.idkind, c.seed);
     let idlist = make_ids::<C>(c.idkind, c.n as usize);
-    let run = match if c.partial { dkg_run_parallel_wire::<C>(c.n, c.t, &idlist, &c.seed) } else { dkg_run::<C>(c.n, c.t, &idlist, &c.seed) } {
+    let run = match if c.partial {
+        dkg_run_parallel_wire::<C>(c.n, c.t, &idlist, &c.seed)
+    } else if c.zero_share {
+        dkg_run_zero_share::<C>(c.n, &idlist, &c.seed)
+    } else {
+        dkg_run::<C>(c.n, c.t, &idlist, &c.seed)
+    } {
         Ok(r) => r,
         Err(e) => {
             o.eval(false);
